@@ -19,11 +19,13 @@ for s in sorted(os.listdir(os.path.join(VERIF, "seeded"))):
         rd = open(os.path.join(d, "README.txt"), errors="replace").read() if os.path.exists(os.path.join(d, "README.txt")) else ""
         m = re.search(r"(?is)(what it needs.*?|trigger.*?|needs.*?)\n\s*\n(.*?)(\n\s*\n|\Z)", rd)
         meta["needs"] = " ".join((m.group(2) if m else rd[:600]).split())[:700]
-    meta.setdefault("round", 1 if int(s.split("-")[1]) <= 2 else 2)
+    n = int(s.split("-")[1])
+    if not isinstance(meta.get("round"), str): meta["round"] = (n + 1) // 2          # seeds 1-2: round 1, 3-4: round 2, 5-6: round 3, 7-8: round 4 (own seeds carry a text)
     meta.setdefault("confirmed", "tools/confirm_seed.sh: demo passes on /repo HEAD, patch applies, tools/run_repo_tests.sh prints PASSED 345 FAILED 0 with the patch, demo fails with the patch")
     if s in log:
         rc, key = log[s]
-        if rc == 1: meta["result"] = "caught"; meta["first_signature"] = "key=" + key[:200]
+        if str(meta.get("result", "")).startswith("obsolete") and rc == 0: pass           # (a recorded reason why the change no longer has an effect stays)
+        elif rc == 1: meta["result"] = "caught"; meta["first_signature"] = "key=" + key[:200]
         elif rc == 0: meta["result"] = "MISSED"
         elif rc == -1: meta["result"] = "obsolete: the patch no longer applies (the code it changes was repaired by a later fix: commit)"
         else: meta["result"] = "check-error rc=%d" % rc
